@@ -167,6 +167,21 @@ def c09(text):
     except yaml.YAMLError as e: perr = e
     except Exception as e: return dict(bad=[dict(kind='non_yaml_exception', what='parse raised %s' % type(e).__name__, exc=type(e).__name__)], outcome='crash')
     if toks is not None:
+        # the token source driven by get_token() alone (no check_token / peek_token in between) must hand out the same tokens
+        try:
+            ld = yaml.SafeLoader(text); t2 = []
+            try:
+                while True:
+                    t = ld.get_token()
+                    if t is None: break
+                    t2.append(t)
+            finally: ld.dispose()
+            sig = lambda ts: [(type(t).__name__, t.start_mark.index, t.end_mark.index, getattr(t, 'value', None)) for t in ts]
+            if sig(t2) != sig(toks):
+                k = next((i for i, (x, y) in enumerate(zip(sig(t2) + [None], sig(toks) + [None])) if x != y), 0)
+                bad.append(dict(kind='get_token_only', what='tokens handed out by get_token() alone differ from yaml.scan at token %d: %s vs %s' % (k, (sig(t2) + [None])[k], (sig(toks) + [None])[k])))
+        except yaml.YAMLError as e:
+            bad.append(dict(kind='get_token_only', what='get_token() alone raises %s where yaml.scan returns tokens' % type(e).__name__))
         check_marks(toks, text, pos, bad, 'token')
         r = token_balance_ok(toks, evs is not None)
         if r: bad.append(dict(kind='token_grammar', what='token sequence: ' + r))
@@ -417,8 +432,30 @@ def _dump_opts(o):
     o = dict(o)
     if o.get('version') is not None: o['version'] = tuple(o['version'])
     return o
+_PATH_CLASSES = {}
+def _path_classes(be):
+    """subclasses of the safe dumper / loader with path resolvers (the experimental add_path_resolver API), once per worker"""
+    import yaml
+    if be not in _PATH_CLASSES:
+        D0, L0 = _classes(be)
+        if D0 is None or L0 is None: _PATH_CLASSES[be] = (None, None)
+        else:
+            class PathD(D0): pass
+            class PathL(L0): pass
+            for K in (PathD, PathL):
+                K.add_path_resolver('!top', [], dict)
+                K.add_path_resolver('!leaf', ['a', 'b'], str)
+                K.add_path_resolver('!item', [None, 0], str)
+                K.add_path_resolver('!deep', [(dict, 'k0'), (list, None)], None)
+            PathL.add_constructor('!top', lambda l, n: ('TOP', l.construct_mapping(n, deep=True)))
+            PathL.add_constructor('!leaf', lambda l, n: ('LEAF', n.value))
+            PathL.add_constructor('!item', lambda l, n: ('ITEM', n.value))
+            PathL.add_constructor('!deep', lambda l, n: ('DEEP', getattr(n, 'value', None) if isinstance(n, yaml.ScalarNode) else n.id))
+            _PATH_CLASSES[be] = (PathD, PathL)
+    return _PATH_CLASSES[be]
 def _classes(be):
     import yaml
+    if be.endswith('_path'): return _path_classes(be[:-5])
     return {'py': (yaml.SafeDumper, yaml.SafeLoader), 'c': (getattr(yaml, 'CSafeDumper', None), getattr(yaml, 'CSafeLoader', None))}[be]
 
 def rt(enc, opts, dumper_be, loader_be):
@@ -604,12 +641,16 @@ def c04(text, loader_name, named, warm=None):
     if warm is not None and getattr(yaml, warm, None) is not None:
         try: yaml.load(text, Loader=getattr(yaml, warm))          # harmless documents only (see tools/props/c04.py)
         except Exception: pass
-    allowed_ids = set()
+    allowed_ids = set(); import tools.c04names as _names
+    probes = {}
     for nm in named:
         mod, _, attr = nm.rpartition('.')
         if not mod: mod, attr = 'builtins', nm
         m = sys.modules.get(mod)
-        if m is not None and hasattr(m, attr): allowed_ids.add(id(getattr(m, attr)))
+        if m is not None and hasattr(m, attr):
+            allowed_ids.add(id(getattr(m, attr))); probes[nm] = getattr(m, attr)
+    calls_before = {nm: o._c04_calls for nm, o in probes.items() if hasattr(type(o), '__next__') and hasattr(o, '_c04_calls') or type(o).__name__ == 'Lazy'}
+    lens_before = {nm: o.__length_hint__() for nm, o in probes.items() if hasattr(o, '__length_hint__') and hasattr(type(o), '__next__')}
     r = _confined_load(text, loader_name, allow_getattr=True)
     if r is None: return dict(bad=[], outcome='no_class')
     docs, exc, calls, imports, new_modules = r
@@ -621,6 +662,14 @@ def c04(text, loader_name, named, warm=None):
         if isinstance(exc, RecursionError): return dict(bad=bad, outcome='RecursionError')
         bad.append(dict(kind='non_yaml_exception', what='%s raised %s: %s' % (loader_name, type(exc).__name__, str(exc)[:80]), exc=type(exc).__name__, loader=loader_name))
         return dict(bad=bad, outcome='crash')
+    for nm, n0 in calls_before.items():
+        if probes[nm]._c04_calls != n0: bad.append(dict(kind='named_object_used', what='%s called / advanced the object named by python/name:%s (%d use(s))' % (loader_name, nm, probes[nm]._c04_calls - n0), loader=loader_name))
+    for nm, n0 in lens_before.items():
+        if probes[nm].__length_hint__() != n0: bad.append(dict(kind='named_object_used', what='%s consumed %d item(s) of the iterator named by python/name:%s' % (loader_name, n0 - probes[nm].__length_hint__(), nm), loader=loader_name))
+    import re as _re0
+    m0 = _re0.match(r"^!!python/name:([A-Za-z0-9_.]+)(?: ''| \"\")?\s*$", text)
+    if m0 and m0.group(1) in probes and len(docs) == 1 and docs[0] is not probes[m0.group(1)]:
+        bad.append(dict(kind='named_object_replaced', what='%s: python/name:%s gives %s, not the named attribute itself' % (loader_name, m0.group(1), type(docs[0]).__name__), loader=loader_name))
     import datetime
     plain = (type(None), bool, int, float, str, bytes, datetime.date, datetime.datetime, complex)
     seen = set()
@@ -979,6 +1028,15 @@ def c15(encs, opts, be, simple):
             if not l or l.startswith(('---', '...', '%')): continue
             n = len(l) - len(l.lstrip(' '))
             if n % best: bad.append(dict(kind='indent', what='line %r is indented by %d, not a multiple of the effective indent %d' % (l[:40], n, best), text=text[:3000], dumper=be)); break
+            # entries that start on the same line as a `- ` indicator (compact nesting): each nested entry starts at a multiple too
+            col = n; rest_ = l[n:]; off = None
+            while rest_.startswith('- '):
+                k = len(rest_) - len(rest_[1:].lstrip(' ')); col += k; rest_ = rest_[k:]
+                if (rest_.startswith('- ') or re.match(r'k\d+:', rest_)) and col % best: off = col; break
+            if off is not None:
+                bad.append(dict(kind='indent', what='line %r has a nested entry at column %d, not a multiple of the effective indent %d' % (l[:40], off, best), text=text[:3000], dumper=be)); break
+        try: list(yaml.parse(out, Loader=L))
+        except yaml.YAMLError as e: bad.append(dict(kind='unparsable', what='the output is not accepted by the library\'s own parser: %s' % str(e)[:120].replace('\n', ' '), text=text[:3000], dumper=be))
     if o.get('canonical') and be == 'py' and not o.get('tags'):      # the helper parser knows no %TAG directive
         try:
             sys.path.insert(0, os.path.join(os.path.dirname(os.path.dirname(os.path.dirname(yaml.__file__))), 'tests', 'legacy_tests'))
@@ -1143,6 +1201,58 @@ def c11s(texts, be, seps=None):
             bad.append(dict(kind='stream_not_list_of_docs', what='%s: the stream gives %r%s but the documents alone give %r%s' % (what, got[:4], ' then ' + gerr if gerr else '', single[:4], ' then ' + err if err else ''), backend=be)); break
     return dict(bad=bad, outcome='ok' if not bad else 'bad')
 
+# ---------------------------------------------------------------------------------------------------------------
+# C10: the shipped entry classes are mutually isolated (independent of the model: snapshots of the live tables)
+# ---------------------------------------------------------------------------------------------------------------
+ENTRY_CLASSES = ['BaseLoader', 'SafeLoader', 'FullLoader', 'UnsafeLoader', 'Loader', 'CBaseLoader', 'CSafeLoader', 'CFullLoader', 'CUnsafeLoader', 'CLoader',
+                 'BaseDumper', 'SafeDumper', 'Dumper', 'CBaseDumper', 'CSafeDumper', 'CDumper']
+TABLE_ATTRS = ['yaml_constructors', 'yaml_multi_constructors', 'yaml_representers', 'yaml_multi_representers', 'yaml_implicit_resolvers', 'yaml_path_resolvers']
+_c10_n = [0]
+def c10x(kind, cname, probe_text=None):
+    """register something of `kind` on the shipped class `cname`; no effective table of any OTHER shipped entry class may change, and
+    a probe document / value must load / dump with every other class exactly as before"""
+    import yaml, re
+    classes = {n: getattr(yaml, n, None) for n in ENTRY_CLASSES}
+    C = classes.get(cname)
+    if C is None or not hasattr(C, {'ctor': 'add_constructor', 'multi_ctor': 'add_multi_constructor', 'repr': 'add_representer', 'multi_repr': 'add_multi_representer', 'implicit': 'add_implicit_resolver', 'path': 'add_path_resolver'}[kind]):
+        return dict(bad=[], outcome='not_applicable')
+    def freeze(attr, t):
+        if attr == 'yaml_implicit_resolvers': return {k: tuple((tag, rx.pattern) for tag, rx in v) for k, v in t.items()}
+        if attr == 'yaml_path_resolvers': return {repr(k): v for k, v in t.items()}
+        return {k: id(v) for k, v in t.items()}
+    def snap(): return {n: {a: freeze(a, getattr(K, a)) for a in TABLE_ATTRS if hasattr(K, a)} for n, K in classes.items() if K is not None}
+    _c10_n[0] += 1; u = '!c10x%d' % _c10_n[0]
+    class Probe: pass
+    text = '- %s v\n- %sabc w\n- zq%d\n- {top: {leaf: v}}\n' % (u, u, _c10_n[0])
+    def behaviour():
+        out = {}
+        for n, K in classes.items():
+            if K is None: continue
+            try:
+                if 'Loader' in n: out[n] = repr(yaml.load(text, Loader=K))[:300]
+                else: out[n] = yaml.dump([Probe.__name__, 'zq%d' % _c10_n[0]], Dumper=K)
+            except yaml.YAMLError as e: out[n] = 'YAMLError ' + type(e).__name__
+            except Exception as e: out[n] = 'EXC ' + type(e).__name__
+        return out
+    before = snap(); bb = behaviour()
+    if kind == 'ctor': C.add_constructor(u, lambda l, n: ('probe', n.value))
+    elif kind == 'multi_ctor': C.add_multi_constructor(u, lambda l, s, n: ('multi', s, n.value))
+    elif kind == 'repr': C.add_representer(type('T%d' % _c10_n[0], (), {}), lambda d, o: d.represent_scalar(u, 'x'))
+    elif kind == 'multi_repr': C.add_multi_representer(type('M%d' % _c10_n[0], (), {}), lambda d, o: d.represent_scalar(u, 'x'))
+    elif kind == 'implicit': C.add_implicit_resolver(u, re.compile('^zq%d$' % _c10_n[0]), ['z'])
+    elif kind == 'path': C.add_path_resolver(u, ['top', 'leaf'], str)
+    after = snap(); ba = behaviour(); bad = []
+    for n in before:
+        if n == cname: continue
+        for a in before[n]:
+            if before[n][a] != after[n].get(a):
+                new = [k for k in after[n][a] if k not in before[n][a]]
+                bad.append(dict(kind='leak', what='%s on %s changed %s.%s (new keys: %s)' % (kind, cname, n, a, [str(k)[:40] for k in new][:3]), target=cname, other=n, table=a)); break
+        if bb.get(n) != ba.get(n):
+            bad.append(dict(kind='behaviour_leak', what='%s on %s changed what %s does with a probe: %s -> %s' % (kind, cname, n, bb.get(n, '')[:80], ba.get(n, '')[:80]), target=cname, other=n))
+    return dict(bad=bad[:4], outcome='ok' if not bad else 'bad')
+HANDLERS.update({'c10x': c10x})
+
 HANDLERS.update({'c11': c11, 'c11s': c11s})
 
 # ---------------------------------------------------------------------------------------------------------------
@@ -1167,14 +1277,31 @@ class _WStream:
     def write(s, d): s._tick('write'); s.log.append(d)
     def flush(s): s._tick('flush')
 
+_REF = {}
+def _ref_calls():
+    """reference calls through the stock classes and through customised classes (path resolvers), both back-ends"""
+    import yaml
+    out = []
+    for be in ('py', 'c'):
+        for D, L in (_classes(be), _path_classes(be)):
+            if D is None or L is None: continue
+            for text in ('a: {b: x, c: [y]}\nk0: [p, {q: r}]\n', '[[u, v], {a: {b: w}}]'):
+                try: out.append(repr(yaml.load(text, Loader=L)))
+                except Exception as e: out.append('EXC %s: %s' % (type(e).__name__, str(e)[:60]))
+            for v in ({'a': {'b': 'x'}, 'k0': ['p', 1]}, [['u', 'v'], {'a': {'b': 'w'}}]):
+                try: out.append(yaml.dump(v, Dumper=D))
+                except Exception as e: out.append('EXC %s: %s' % (type(e).__name__, str(e)[:60]))
+    return out
 def _ref_ok():
     import yaml
-    return yaml.safe_load(yaml.safe_dump({'a': [1, 'x', None]})) == {'a': [1, 'x', None]} and yaml.safe_dump([1, 2]) == '- 1\n- 2\n'
+    if 'ref' not in _REF: _REF['ref'] = _ref_calls()           # first use in this worker: before any fault was injected
+    return yaml.safe_load(yaml.safe_dump({'a': [1, 'x', None]})) == {'a': [1, 'x', None]} and yaml.safe_dump([1, 2]) == '- 1\n- 2\n' and _ref_calls() == _REF['ref']
 
 def c19(kind, payload, be, max_points, k0=0):
     import yaml, random
     from tools.values import decode
     bad = []; points = 0
+    _ref_ok()
     rng = random.Random(len(str(payload)))
     def pick(n):
         idx = list(range(n))
